@@ -302,4 +302,19 @@ theorem c_group_decode_roundtrip (xs : List Nat) (h : Group.Ok xs) (cap : Nat) (
     · exact hrest b hb
   exact ((Varint.Bridge.Group.groupDecode_eq _ hb h64 cap fuel hf).2 xs _ (group_roundtrip xs h cap hcap rest)).1
 
+
+/-- **group random access on the translated C** (`varintGroupGetField`): on the encoding of 1..64 fields it stores
+    field `i` for every i < n and returns an offset inside the encoding -/
+theorem c_group_getfield (xs : List Nat) (h : Group.Ok xs) (i : Nat) (hi : i < xs.length) (rest : List Nat)
+    (hrest : ∀ b ∈ rest, b < 256) (h64 : (Group.enc xs ++ rest).length < 2 ^ 64) (fuel : Nat) (hf : 64 < fuel) :
+    ∃ n, Varint.Gen.C.groupGetField fuel (Varint.Bridge.Tagged.bufOf (Group.enc xs ++ rest)) i =
+      some (n, some (xs.getD i 0)) ∧ n ≤ (Group.enc xs).length := by
+  have hb : ∀ b ∈ Group.enc xs ++ rest, b < 256 := by
+    intro b hb
+    rcases List.mem_append.mp hb with hb | hb
+    · exact Group.enc_lt xs h b hb
+    · exact hrest b hb
+  obtain ⟨n, hg, hn⟩ := group_getField xs h i hi rest
+  exact ⟨n, (Varint.Bridge.Group.groupGetField_eq _ hb h64 i (by have := h.2.1; omega) fuel hf).2 _ _ hg, hn⟩
+
 end Varint.Props.C02
